@@ -152,6 +152,27 @@ class Run:
         self.obligations.append(Obligation(rule, f"{symbol}: {norm(construct)[:120]}", "refuted", message))
         self.findings.append(Finding(rule, key, message, file, line, detail or {}))
 
+    def adopt(self, other: "Run", rules: tuple, as_rule: str) -> int:
+        """Take over another property's obligations for `rules` as obligations of `as_rule` here (a property that
+        is end-to-end depends on the stage the other property decides).  Keys keep the construct, not the rule id."""
+        n = 0
+        for o in other.obligations:
+            if o.rule in rules and o.status == "proved":
+                self.proved(as_rule, f"[{o.rule}] {o.subject}")
+                n += 1
+        for f in other.findings:
+            if f.rule in rules:
+                n += 1
+                key = as_rule + f.key[len(f.rule):]
+                if not any(x.key == key for x in self.findings):
+                    self.obligations.append(Obligation(as_rule, f"[{f.rule}] {f.key.split('|', 1)[1][:120]}", "refuted", f.message))
+                    self.findings.append(Finding(as_rule, key, f.message, f.file, f.line, f.detail))
+        for o in other.obligations:
+            if o.rule in rules and o.status == "undecided":
+                self.undecided(as_rule, f"[{o.rule}] {o.subject}", o.note)
+                n += 1
+        return n
+
     def undecided(self, rule: str, subject: str, why: str) -> None:
         self.obligations.append(Obligation(rule, subject, "undecided", why))
         self.errors.append(f"{rule}: {subject}: {why}")
